@@ -113,6 +113,8 @@ def one(case):
                 else:
                     ref = reference(local, order, dims)
                 rec["steps"].append({"dev": float(np.abs(X - ref).max() / scale), "norm": float(np.linalg.norm(X)), "refnorm": float(np.linalg.norm(ref))})
+            if rec["steps"] and "raised" not in rec:
+                rec["probe"] = L.apply_probe(mpo, [1, 1] if case["family"] == "qcstack" else 0, len(plan))
             out["plans"].append(rec)
     return out
 
